@@ -801,3 +801,21 @@ def run_table_row(rec: RawRecorder, tid: int, row):
           'script': [{'plan': plan, 'pre_src': src, 'post_src': root.src,
                       'exc': None if exc is None else f'{type(exc).__name__}: {exc}'}]}
     return tr, sc, mism
+
+
+# ----------------------------------------------------------------------------------------------------------------------
+# C10-specific programs: shapes the statement-local reparser treats specially (statements that are not first on their
+# line, multi-byte characters before them, wide indentation, elif chains, handlers, match cases, decorators)
+
+EXTRA_PROGRAMS = [
+    'ä = 1; b = f(ä); c = [b, ä]\nñ = "ü"; print(ñ, ä)\nif ä: ö = g(b); ü = ö + 1\nelse: ö = 0\n',
+    'def f(é):\n    ß = é; r = h(ß, é)\n    if ß: return r + é\n    return é\nclass Ç: a = 1; b = (a, 2)\n',
+    'if a: b = 1\nelse: b = 2\ndef f():\n        x = 1\n        if x: return x + 1\n        for i in x: y = i; z = y\n        return 0\n',
+    'while a:\n        if b: c = d(e)\n        elif f: g = h[i]\n        else: j = k.l\n        try: m = n()\n        except E: o = p\n',
+    'if a:\n    b = 1\nelif c:\n    d = 2\nelif e:\n    f = 3\nelse:\n    g = 4\nh = 5\n',
+    'try:\n    a = 1\nexcept E as e:\n    b = 2\nexcept (F, G):\n    c = 3\nelse:\n    d = 4\nfinally:\n    e = 5\n',
+    'match v:\n    case 1:\n        a = 1\n    case [x, y]:\n        b = x + y\n    case {"k": w}:\n        c = w\n    case _:\n        d = 0\n',
+    '@dec\n@dec2(arg)\ndef f(a, b=1):\n    return a + b\n\n@cd\nclass C(B):\n    x = 1\n    def m(self):\n        return self.x\n',
+    'with a as b: c = b; d = c\nfor i in j: k = i\nx = (1,\n     2); y = x\n',
+    'def g():\n    """doc"""\n    α = 1  # α\n    β = α + 1; γ = β * 2  # βγ\n    return γ\n',
+]
